@@ -252,6 +252,15 @@ def run(ctx):
         ctx.ob('C29-STEP.inapplicable-path-step-means-missing', tv, st, not miss,
                '' if not miss else '_traverse lets %s escape from the subscript: a document whose value at that step has another shape (a list where a key is applied) aborts the '
                'whole query with "user-defined function raised exception" instead of yielding NULL for that row' % ', '.join(miss), node=st)
+    # `[10, 10, 20] in e.array` asks whether every item of the probe occurs in the array (TrackedArray.__contains__ / set semantics): repeated items make the
+    # probe longer without making it less contained, so py_array_subset must not compare the two lengths (nor count items)
+    ps = repo.fn('pony.orm.dbproviders.sqlite', 'py_array_subset')
+    lens = [c for c in ast.walk(ps.node) if isinstance(c, ast.Compare) and sum(1 for x in ast.walk(c) if isinstance(x, ast.Call) and dotted(x.func) == 'len') >= 2]
+    ctx.ob('C29-SUBSET.list-membership-ignores-multiplicity', ps, lens[0] if lens else ps.node, not lens,
+           '' if not lens else '`%s` compares the lengths of the probe and the stored array: a probe with repeated items ([10, 10, 20] against [10, 20]) is rejected although '
+           'every item is contained' % norm(lens[0]), node=lens[0] if lens else None)
+    uses_sets = any(isinstance(c, ast.Call) and dotted(c.func) in ('set', 'frozenset') for c in ast.walk(ps.node)) or any(isinstance(c, ast.Call) and dotted(c.func) == 'all' for c in ast.walk(ps.node))
+    ctx.ob('C29-SUBSET.list-membership-is-a-subset-test', ps, ps.node, uses_sets, '' if uses_sets else 'py_array_subset no longer tests set inclusion')
 
 
 def quote_class_reason(pattern, Q):
